@@ -393,6 +393,19 @@ fn emit_fn(
                     block.stmts.push(rules::quote_marker(i));
                 }
             }
+            Anchor::Result => {
+                // R-bindtail: `{ ..; tail }` => `{ ..; let r = tail; <insert>; r }`
+                let rname = syn::Ident::new(&c.result.clone().unwrap_or_else(|| "r".to_string()), Span::call_site());
+                match block.stmts.pop() {
+                    Some(Stmt::Expr(e, None)) => {
+                        block.stmts.push(syn::parse_quote!(let #rname = #e;));
+                        block.stmts.push(rules::quote_marker(i));
+                        block.stmts.push(Stmt::Expr(syn::parse_quote!(#rname), None));
+                        *fired.entry("R-bindtail".into()).or_insert(0) += 1;
+                    }
+                    _ => die(&format!("{}: @insert result: the body has no tail expression (lost anchor)", selector)),
+                }
+            }
             Anchor::LoopBegin(k) | Anchor::LoopEnd(k) => {
                 let mut li = rules::LoopBodyInserter {
                     target: *k,
